@@ -294,7 +294,7 @@ enum Cond {
 #[derive(Clone, Debug)]
 enum Stmt {
     Arith(Bin),
-    Index(Atom),                   // [a, b, c, 7u8][(x % 5u8) as usize]
+    Index(Atom, u8),               // [a, b, c, 7u8, ..][(x % (len + 2)) as usize] with len = 0..=5 elements ([7u8; 0] for the empty array)
     If(Cond, Bin, Bin),
     Match(Atom, Bin, Bin, Bin),    // match x % 3u8 { 0 => .., 1 => .., _ => .. }
     AndOr(bool, Cond, Cond, Bin, Bin), // if (c1 && c2) / (c1 || c2) { .. } else { .. }
@@ -359,7 +359,11 @@ fn stmt_src(s: &Stmt, k: usize) -> Vec<String> {
             format!("    let v{k} = arr{k}[0] ^ arr{k}[1] ^ arr{k}[2];"),
         ],
         Stmt::Arith(b) => vec![format!("    let v{k} = {};", bin_src(b))],
-        Stmt::Index(x) => vec![format!("    let v{k} = [a, b, c, 7u8][({} % 5u8) as usize];", atom_src(x))],
+        Stmt::Index(x, len) => {
+            let elems = ["a", "b", "c", "7u8", "a"];
+            let arr = if *len == 0 { "[7u8; 0]".to_string() } else { format!("[{}]", elems[..*len as usize].join(", ")) };
+            vec![format!("    let v{k} = {arr}[({} % {}u8) as usize];", atom_src(x), len + 2)]
+        }
         Stmt::If(c, t, f) => vec![
             format!("    let v{k} = if {} {{", cond_src(c)),
             format!("        {}", bin_src(t)),
@@ -459,9 +463,9 @@ fn stmt_val(s: &Stmt, env: &[u8]) -> Result<u8, (u8, usize)> {
             Ok(arr[0] ^ arr[1] ^ arr[2])
         }
         Stmt::Arith(b) => bin_val(b, env).map_err(|r| (r, 0)),
-        Stmt::Index(x) => {
-            let i = atom_val(x, env) % 5;
-            if i >= 4 { Err((3, 0)) } else { Ok([env[0], env[1], env[2], 7][i as usize]) }
+        Stmt::Index(x, len) => {
+            let i = atom_val(x, env) % (len + 2);
+            if i >= *len { Err((3, 0)) } else { Ok([env[0], env[1], env[2], 7, env[0]][i as usize]) }
         }
         Stmt::If(c, t, f) => {
             if cond_val(c, env, 0)? { bin_val(t, env).map_err(|r| (r, 1)) } else { bin_val(f, env).map_err(|r| (r, 3)) }
@@ -521,7 +525,7 @@ fn rand_stmt(rng: &mut Rng, nvars: usize) -> Stmt {
 fn rand_stmt_basic(rng: &mut Rng, nvars: usize) -> Stmt {
     match rng.below(9) {
         0..=2 => Stmt::Arith(rand_bin(rng, nvars)),
-        3 => Stmt::Index(rand_atom(rng, nvars)),
+        3 => Stmt::Index(rand_atom(rng, nvars), [4u8, 0, 1, 4, 2, 5, 3, 0][rng.below(8)]),
         4 | 5 => Stmt::If(rand_cond(rng, nvars), rand_bin(rng, nvars), rand_bin(rng, nvars)),
         6 => Stmt::Match(rand_atom(rng, nvars), rand_bin(rng, nvars), rand_bin(rng, nvars), rand_bin(rng, nvars)),
         _ => Stmt::AndOr(rng.below(2) == 0, rand_cond(rng, nvars), rand_cond(rng, nvars), rand_bin(rng, nvars), rand_bin(rng, nvars)),
